@@ -5,7 +5,7 @@ import json, os, re, subprocess, sys, time
 
 V = "/verif"
 SEEDED = os.path.join(V, "seeded")
-ALSO = {"C01": ["C09"], "C02": ["C09"], "C09": ["C01"], "C08": ["C01"], "C07": ["C01"], "C11": ["C01"], "C06": ["C19"], "C19": ["C06", "C05"], "C05": ["C19"],
+ALSO = {"C01": ["C09"], "C02": ["C09"], "C09": ["C01"], "C08": ["C01"], "C07": ["C01", "C15"], "C11": ["C01"], "C06": ["C19"], "C19": ["C06", "C05"], "C05": ["C19"],
         "C03": ["C04"], "C04": ["C03", "C15"], "C15": ["C04"], "C10": ["C01"], "C13": ["C01"], "C18": ["C13"], "C12": [], "C14": [], "C16": [], "C17": [], "C20": ["C08"]}
 ENV = dict(os.environ, CARGO_NET_OFFLINE="true")
 
